@@ -128,7 +128,7 @@ def validate(spec: ModelSpec, c: tv.Compiled, tally: decide.Tally, vectorized: b
 
     # concrete shadow run: the real function on the very arguments it was returned with ------------
     try:
-        shadow = c.func(*[_copy_arg(a) for a in c.args])
+        shadow = tv.call_real(c, [_copy_arg(a) for a in c.args])
         shadow = np.asarray(_to_numpy(shadow), dtype=float).reshape(-1)
         if shadow.shape[0] != ny:
             res['violations'].append(dict(kind='shape', what=f"vector field returns {shadow.shape[0]} entries for "
@@ -175,7 +175,7 @@ def validate(spec: ModelSpec, c: tv.Compiled, tally: decide.Tally, vectorized: b
             # the emitted function raised on symbolic inputs: confirm with the real function on its own arguments
             real = None
             try:
-                c.func(*[_copy_arg(a) for a in c.args])
+                tv.call_real(c, [_copy_arg(a) for a in c.args])
             except Exception as e2:   # noqa
                 real = f"{type(e2).__name__}: {e2}"
             if real is not None:
@@ -277,7 +277,7 @@ def _check_path(spec, c, tally, vectorized, twin, cvc5, delayed_factory, ext_inp
                     tval = t_sym if isinstance(t_sym, (int, np.integer)) else env.get('t', 0.0)
                     fargs = tv.float_args(c, env, binding, y_names, t_value=tval,
                                           hist_fn=getattr(plugin, 'hist_float', None))
-                    real = np.asarray(_to_numpy(c.func(*fargs)), dtype=float).reshape(-1)[pos[sv][0]]
+                    real = np.asarray(_to_numpy(tv.call_real(c, fargs)), dtype=float).reshape(-1)[pos[sv][0]]
                     rec['real_value'] = float(real)
                     ok = abs(real - rv_) > 1e-7 * max(1.0, abs(real), abs(rv_))
                 except Exception as e:   # noqa
